@@ -306,7 +306,8 @@ func (g *Gen) amountUpTo(avail *big.Rat) string {
 		case 3: // overdraw a lot
 			return trimDec(ratToDec(new(big.Rat).Mul(avail, big.NewRat(3, 1)), 6)) + "1"
 		case 4: // scientific notation of a small value
-			return []string{"1e0", "1E+1", "1.5e1", "2e-3", "1e-6", "25E-1"}[g.R.Intn(6)]
+			// scientific notation, including exponents that end in a zero digit and mantissas with a point
+			return []string{"1e0", "1E+1", "1.5e1", "2e-3", "1e-6", "25E-1", "1.5e10", "2.5E+10", "1.25e20", "1.0e1", "3.50e0", "1.5E1"}[g.R.Intn(12)]
 		default:
 			return trimDec(ratToDec(avail, 6)) + "0" // trailing zero form of the exact balance
 		}
